@@ -1,7 +1,8 @@
-// Command c20stress runs the C20 producer/consumer stress of the real util.Queue as a separate
-// process. The harness builds it with -race (the race detector cannot be switched on inside the
-// already built harness) and reads the JSON report from stdout; a data race makes the runtime
-// print "WARNING: DATA RACE" on stderr and exit with status 66.
+// Command c20stress runs the C20 checks of the real util.Queue that need their own process: the
+// producer/consumer stress (-mode stress) and the channel integration scenarios (-mode chan). The
+// harness builds it with -race (the race detector cannot be switched on inside the already built
+// harness) and reads the JSON report from stdout; a data race makes the runtime print
+// "WARNING: DATA RACE" on stderr and exit with status 66.
 package main
 
 import (
@@ -9,18 +10,33 @@ import (
 	"flag"
 	"fmt"
 	"os"
+	"strings"
+	"sync"
 	"time"
 
 	"verifgo/c20stress"
 )
 
 func main() {
+	mode := flag.String("mode", "stress", "stress|chan")
 	seed := flag.Uint64("seed", 1, "seed")
 	chunks := flag.Int("chunks", 20000, "chunks to produce")
 	procs := flag.Int("procs", 0, "GOMAXPROCS")
 	stop := flag.Int("stop", 0, "consumer stops after this many produced chunks (0 = all)")
 	timeout := flag.Duration("timeout", 120*time.Second, "watchdog")
+	n := flag.Int("n", 100, "chan: number of scenarios")
+	par := flag.Int("par", 4, "chan: scenarios in parallel")
+	kind := flag.String("kind", "", "chan: only this kind (kind or kind:true for huge reads); then -seed is the scenario seed")
 	flag.Parse()
+	if *mode == "chan" {
+		out := c20stress.RunChanBatch(*seed, *n, *par, *kind)
+		b, _ := json.Marshal(out)
+		fmt.Println(string(b))
+		if len(out.Violations) > 0 {
+			os.Exit(1)
+		}
+		return
+	}
 	rep := c20stress.Run(c20stress.Config{Seed: *seed, Chunks: *chunks, Procs: *procs, StopAfter: *stop, Timeout: *timeout})
 	b, _ := json.Marshal(rep)
 	fmt.Println(string(b))
@@ -28,3 +44,6 @@ func main() {
 		os.Exit(1)
 	}
 }
+
+var _ = strings.Split
+var _ sync.Mutex
